@@ -1,11 +1,5 @@
 package schedwalk
 
-import (
-	"testing"
-
-	"github.com/bitcoin-sv/block-headers-service/verifh/core"
-)
-
-func checkC11(t *testing.T, env core.Env, rep *core.Report) { t.Skip("see c11_test.go") }
+import "github.com/bitcoin-sv/block-headers-service/verifh/core"
 
 func racePass(rep *core.Report) {}
